@@ -544,6 +544,39 @@ func runC04(c *fw.Ctx) {
 			}
 		})
 
+		// (a2) "hand-built" variant: a clone of the tree (no association with any decorator) with
+		// every spacing set to None and every parsed decoration removed, then decorated on all points
+		c.Case(in.id+"/handbuilt", func() {
+			f0, _ := decorator.Parse(in.src)
+			f := dst.Clone(f0).(*dst.File)
+			dst.Inspect(f, func(n dst.Node) bool {
+				if n == nil {
+					return false
+				}
+				if nd := n.Decorations(); nd != nil {
+					nd.Before, nd.After = dst.None, dst.None
+				}
+				forEachDecs(reflect.ValueOf(n).Elem().FieldByName("Decs"), func(name string, d *dst.Decorations) { *d = nil })
+				return true
+			})
+			plain, perr := printFile(f)
+			if perr != "" {
+				c.Count("inconclusive_stripped_tree_does_not_print", 1)
+				return
+			}
+			pt, _ := obs.Scan([]byte(plain))
+			var sites []decSite
+			k := 0
+			decorateAll(f, func(n dst.Node, point string) string {
+				k++
+				text := fmt.Sprintf("/*#h%d*/", k)
+				sites = append(sites, decSite{n, point, text, "block"})
+				return text
+			})
+			c04Check(c, in.id, f, sites, obs.Syntax(pt), string(in.src), "handbuilt")
+			c.Count("handbuilt_trees", 1)
+		})
+
 		// (b) one at a time
 		c.Case(in.id+"/one", func() {
 			f, _ := decorator.Parse(in.src)
